@@ -113,8 +113,8 @@ def submit(ctx):
             apps = functor_applications(f)
             drains = _calls(f, lambda s: (s.get("callee") or {}).get("name") == "do_pending_writes_internal"
                             and path(f, f.s(s.get("obj"))) == "this")
-            ok = bool(apps)
-            ctx.ob(rid, ok, f.where, "%s has a direct application path" % nm, "", fn=f.label, inst=f.qname)
+            if not apps:
+                ctx.unknown("%s: no direct application path recognised in %s" % (rid, f.label))
             for a in apps:
                 ap = f.pos_of(a)
                 ok = la.holds(ap, "this.m_mutex", "X")
@@ -125,9 +125,11 @@ def submit(ctx):
                        "" if ok else "no do_pending_writes_internal() dominates the application", fn=f.label, inst=f.qname)
             enq = enqueue_sites(f, la)
             raises = flag_ops(f, "store", True) + [o for o in flag_ops(f, "rmw")]
-            ok = bool(enq) and bool(raises)
-            ctx.ob(rid, ok, f.where, "%s has a queued path (enqueue under the list lock, then raise the flag)" % nm,
-                   "" if ok else "enqueue sites=%d flag raises=%d" % (len(enq), len(raises)), fn=f.label, inst=f.qname)
+            if not enq or (not raises and not flag_ops(f, "store")):
+                ctx.unknown("%s: no queued path recognised in %s (enqueue sites=%d, flag raises=%d)" % (rid, f.label, len(enq), len(raises)))
+            elif not raises:
+                ctx.ob(rid, False, f.where, "%s raises the pending flag after enqueuing" % nm,
+                       "the task is queued but the flag is never raised: the drain never looks at the queue", fn=f.label, inst=f.qname)
             for r in raises:
                 rp = f.pos_of(r["st"])
                 # the pending-list critical section in which the task was enqueued must have STARTED before the raise:
